@@ -170,8 +170,16 @@ class Renderer:
             f = _fn(self.spec, it["fn"])
             fn = self.sym(mod, it["fn"], f["module"], it.get("form", "from"), imports)
             parts = [repr(it["path"]) if not it.get("pathvar") else it["pathvar"], fn]
-            parts += [self.arg(a, mod, imports) for a in it.get("args", [])]
-            parts += [f"{n}={self.arg(a, mod, imports)}" for n, a in it.get("kwargs", [])]
+            if it.get("starargs"):
+                # the positional arguments are unpacked from a tuple built at the call: f(*(a, b))
+                parts.append("*(" + "".join(self.arg(a, mod, imports) + ", " for a in it.get("args", [])) + ")")
+            else:
+                parts += [self.arg(a, mod, imports) for a in it.get("args", [])]
+            if it.get("starkw"):
+                # the keyword arguments are unpacked from a mapping: f(1, **{'y': V})
+                parts.append("**{" + ", ".join(f"{n!r}: {self.arg(a, mod, imports)}" for n, a in it.get("kwargs", [])) + "}")
+            else:
+                parts += [f"{n}={self.arg(a, mod, imports)}" for n, a in it.get("kwargs", [])]
             if it.get("multiline"):
                 e = "dds.keep(\n        " + ",\n        ".join(parts) + ",\n    )"
             else:
